@@ -199,8 +199,9 @@ package parser
 // ---- C05: a condition that is not of type bool is reported ----
 
 // The scope chain (scope.outer links) is written only when a scope is created; no parsing step re-links it,
-// and the condition and block of a conditional block are set once by the function that builds it.
-//@ frameset parseFrame = parser.scope.outer, parser.ConditionalBlock.Condition, parser.ConditionalBlock.Block
+// and the condition and block of a conditional block are set once by the function that builds it; tokens and
+// finished binary expressions are not rewritten by later parsing steps; the formatting record is allocated once.
+//@ frameset parseFrame = parser.scope.outer, parser.ConditionalBlock.Condition, parser.ConditionalBlock.Block, parser.parser.formatting, parser.BinaryExpression, lexer.Token
 
 //@ func (p *parser) parseTopLevelExpr() (n Node)
 //@   noverify the Pratt parser itself is not under contract; it advances the parser and may append diagnostics
@@ -306,3 +307,33 @@ package parser
 //@   modifies p.errors, class elem:*parser.Error
 //@   loop 1 invariant -1 <= rangeindex && rangeindex < len(nodes) && len(nodes) <= 3 && ncalls("(Node).Type") == rangeindex + 1 && ncalls("(*parser).appendErrorForToken") == 0
 //@   loop 1 invariant forall(j, int, 1 <= j && j <= rangeindex + 1 ==> callarg("(Node).Type", j, 0) == nodes[j-1] && callres("(Node).Type", j, 0).(*Type) == NUM_TYPE)
+
+// ---- C01: a binary operator takes as its right operand what parses at the operator's own precedence (so that
+// operators of equal precedence group from left to right), and the expression it builds is type-checked ----
+
+//@ func (p *parser) parseExpr(prec precedence) (n Node)
+//@   noverify the Pratt loop itself is not under contract
+//@   ensures p.scope == old(p.scope) && p.cur != nil && p.peek != nil
+//@   modifies allbut parseFrame
+
+//@ func (p *parser) isWSS() (b bool)
+//@   noverify whitespace-sensitivity flag
+//@   modifies nothing
+
+//@ func (f *formatting) recordWSS(n *BinaryExpression) ()
+//@   noverify formatting bookkeeping
+//@   modifies class map:*parser.BinaryExpression:bool
+
+//@ func op(tok *lexer.Token) (o Operator)
+//@   noverify token to operator table
+//@   opt nilrecv true
+//@   modifies nothing
+
+//@ func (p *parser) parseBinaryExpr(left Node) (n Node)
+//@   props C01 C04
+//@   requires left != nil && p.cur != nil && p.formatting != nil
+//@   let tt = old(p.cur.Type)
+//@   ensures[C01 right-operand-at-operator-precedence] ncalls("(*parser).parseExpr") == 1 && callarg("(*parser).parseExpr", 1, 1) == old(ite(has(precedences, p.cur.Type), precedences[p.cur.Type], 0))
+//@   ensures[C04 C05 operator-application-checked] n != nil ==> ncalls("(*parser).validateBinaryType") == 1 && is(n, *BinaryExpression) && callarg("(*parser).validateBinaryType", 1, 1).(*BinaryExpression) == n.(*BinaryExpression)
+//@   ensures[C01 no-operand-no-expression] callres("(*parser).parseExpr", 1, 0) == nil ==> n == nil && ncalls("(*parser).validateBinaryType") == 0
+//@   modifies allbut parseFrame
